@@ -236,3 +236,36 @@ func VerifC15AddDeposit() {
 		rt.Assert(got.Status == govv1.StatusDepositPeriod && inactive, "a proposal below the minimum stays in its deposit period and in the inactive queue")
 	}
 }
+
+// VerifC15OneMessageType: a list of 0..3 proposal messages drawn from three message types is
+// accepted exactly when all of them are of one type.
+func VerifC15OneMessageType() {
+	n := rt.Choose("messages", 4)
+	var msgs []sdk.Msg
+	kinds := make([]int, 0, 3)
+	for i := 0; i < n; i++ {
+		kd := rt.Choose("kind", 3)
+		kinds = append(kinds, kd)
+		switch kd {
+		case 0:
+			msgs = append(msgs, &types.MsgUpdateSwitchParams{Authority: verifAuthority})
+		case 1:
+			msgs = append(msgs, &types.MsgUpdateStore{Authority: verifAuthority})
+		default:
+			msgs = append(msgs, &distributiontypes.MsgCommunityPoolSpend{Authority: verifAuthority})
+		}
+	}
+	same := true
+	for _, kd := range kinds {
+		if kd != kinds[0] {
+			same = false
+		}
+	}
+	err := checkProposalMsgs(msgs)
+	if err == nil {
+		rt.Cover("accepted")
+	} else {
+		rt.Cover("refused")
+	}
+	rt.Assert((err == nil) == same, "a proposal is accepted exactly when all of its messages are of one type")
+}
